@@ -49,7 +49,7 @@ RULE = (
     'order / client order), a transport (Pipe end | Listener/Client over '
     'AF_UNIX | AF_INET) and one message choice for each of the three things a '
     'peer sends (digest, challenge, verdict), drawn so that ~10% of cases '
-    'conform everywhere, ~75% deviate at exactly one step and ~15% at several; '
+    'conform everywhere, ~70% deviate at exactly one step and ~20% at several; '
     'non-trivial = at least one step deviates. fresh/types cases are counted '
     'but never non-trivial. Distinct = distinct canonical JSON of the case. '
     'Different keys with equal HMAC-normalised form are mapped out of the '
@@ -61,10 +61,11 @@ ASSUMPTIONS = [
     'the listener order deliver_challenge;answer_challenge and the client '
     'order answer_challenge;deliver_challenge are replayed by the harness on '
     'Pipe() ends exactly as Listener.accept()/Client() call them',
-    'a handshake is called hung only when a side is still running and nothing '
-    'moved for 3 s (same live threads, same unread byte count on every socket '
-    'of the case; 1 s once a first hang was declared in the process, which only '
-    'affects shrinking); a case still moving after 15 s is inconclusive',
+    'a handshake is called hung only when every side still running sleeps in a '
+    'blocking read/accept on a descriptor with nothing to read while the harness '
+    'has nothing to send, unchanged over >=20 observations in >=2 s (read from '
+    '/proc/self/task/<tid>/syscall, x86_64/aarch64 Linux); elsewhere: nothing '
+    'moved for 120 s; a case still moving after 120 s is inconclusive',
     'a peer that goes silent (sends nothing, keeps the socket open) is not a '
     'response and is not generated: the protocol has no timeout of its own',
     'authkey=None is the API\'s "no authentication" and is not treated as a '
@@ -72,14 +73,19 @@ ASSUMPTIONS = [
 ]
 SHARDS = {'quick': 8, 'thorough': 16}
 
-# A handshake is declared hung when a side is still running and nothing has
-# moved (same threads alive, same unread byte counts on every socket of the
-# case) for QUIET_S; a real handshake step takes ~0.1 ms.  Once one hang has
-# been declared in a process, re-executions (shrinking) use the shorter limit.
-# A case that keeps moving for HANG_S without finishing is inconclusive.
-QUIET_S = 3.0
-QUIET_RETRY_S = 1.0
-HANG_S = 15.0
+# A handshake is declared hung on structure, not on time: every side that is
+# still running sleeps in a blocking read()/recv()/accept() on a descriptor
+# with nothing to read (seen through /proc/self/task/<tid>/syscall), the
+# harness has nothing left to send, and that picture stays identical (same
+# syscalls, same voluntary context switch counts) over >= DEAD_POLLS polls
+# spread over >= DEAD_S.  Stalls of the whole box (seen: several seconds under
+# 5x CPU oversubscription) cannot produce that picture: a starved thread is
+# runnable or has readable input.  Where /proc does not show syscalls the
+# fallback is "nothing moved for HANG_S".  A case still moving after HANG_S
+# is inconclusive.
+DEAD_S = 2.0
+DEAD_POLLS = 20
+HANG_S = 120.0
 # True: the generator never emits two different keys with the same
 # HMAC-normalised form (the zone of the known violation).  False lets it in.
 AVOID_HMAC_EQUIV = True
@@ -334,34 +340,102 @@ class _Runner(threading.Thread):
 
     def describe(self):
         if self.was_blocked or self.out is None:
-            return 'was still blocked (nothing moved for seconds)'
+            return 'was blocked for good'
         if self.out[0] == 'ok':
             return 'completed'
         return 'raised %s(%r)' % (self.out[1], self.out[3])
 
 
-_HANGS_DECLARED = [0]
+_BLOCKING_READS = {
+    'x86_64': {0: 'read', 45: 'recvfrom', 47: 'recvmsg', 43: 'accept',
+               288: 'accept4'},
+    'aarch64': {63: 'read', 207: 'recvfrom', 212: 'recvmsg', 202: 'accept',
+                242: 'accept4'},
+}.get(os.uname().machine)
+
+
+def _sleeping_in_read(tid):
+    """(syscall nr, fd, voluntary switches) when kernel thread `tid` of this
+    process sleeps in a blocking read/accept, None when it does anything else,
+    'unsupported' when that cannot be told here"""
+    if _BLOCKING_READS is None:
+        return 'unsupported'
+    try:
+        with open('/proc/self/task/%d/syscall' % tid) as f:
+            fields = f.read().split()
+        with open('/proc/self/task/%d/status' % tid) as f:
+            status = f.read()
+    except (FileNotFoundError, ProcessLookupError):
+        return None             # gone meanwhile
+    except OSError:
+        return 'unsupported'
+    try:
+        nr, fd = int(fields[0]), int(fields[1], 16)
+    except (ValueError, IndexError):
+        return None             # 'running', or not inside a syscall
+    if nr not in _BLOCKING_READS:
+        return None
+    state = vol = None
+    for line in status.splitlines():
+        if line.startswith('State:'):
+            state = line.split()[1]
+        elif line.startswith('voluntary_ctxt_switches:'):
+            vol = int(line.split()[1])
+    if state != 'S':
+        return None
+    return nr, fd, vol
+
+
+def _deadlock_picture(runners):
+    """a hashable picture of 'everybody still running waits for input that is
+    not there', or None when that is not the situation right now"""
+    pic = []
+    for r in runners:
+        if not r.is_alive():
+            continue
+        tid = r.native_id
+        where = _sleeping_in_read(tid) if tid else None
+        if where == 'unsupported':
+            return 'unsupported'
+        if where is None:
+            return None
+        try:
+            readable, _, _ = select.select([where[1]], [], [], 0)
+        except (OSError, ValueError):
+            return None
+        if readable:
+            return None
+        pic.append((tid,) + where)
+    return tuple(pic) or None
 
 
 class _Watch:
-    """progress monitor of one case: 'hung' / 'slow' / None"""
+    """progress monitor of one case; poll() -> 'hung' / 'slow' / None.  Only
+    polled while the harness itself waits and has nothing to send."""
 
     def __init__(self, base, runners):
         self.base, self.runners = base, runners
-        self.t0 = self.quiet_since = time.monotonic()
-        self.last = None
+        self.t0 = self.quiet_since = self.dead_since = time.monotonic()
+        self.last = self.dead = None
+        self.dead_polls = 0
 
     def poll(self):
         now = time.monotonic()
-        state = (tuple(r.is_alive() for r in self.runners),
-                 tuple((fd, _unread(fd)) for fd in _new_sockets(self.base)))
-        if state != self.last:
-            self.last, self.quiet_since = state, now
-        limit = QUIET_RETRY_S if _HANGS_DECLARED[0] else QUIET_S
-        if now - self.quiet_since >= limit:
-            _HANGS_DECLARED[0] += 1
-            return 'hung'
-        if now - self.t0 >= HANG_S:
+        pic = _deadlock_picture(self.runners)
+        if pic == 'unsupported':
+            state = (tuple(r.is_alive() for r in self.runners),
+                     tuple((fd, _unread(fd)) for fd in _new_sockets(self.base)))
+            if state != self.last:
+                self.last, self.quiet_since = state, now
+            if now - self.quiet_since >= HANG_S:
+                return 'hung'
+        elif pic is not None and pic == self.dead:
+            self.dead_polls += 1
+            if self.dead_polls >= DEAD_POLLS and now - self.dead_since >= DEAD_S:
+                return 'hung'
+        else:
+            self.dead, self.dead_polls, self.dead_since = pic, 0, now
+        if now - self.t0 >= HANG_S + 5:
             return 'slow'
         return None
 
@@ -387,7 +461,7 @@ def _cut(runners, base):
     for fd in _new_sockets(base):
         _shutdown_fd(fd)
     for r in runners:
-        r.join(10)
+        r.join(HANG_S)      # its sockets are dead: it only needs to be scheduled
     if any(r.is_alive() for r in runners):
         raise RuntimeError('C18 harness: a handshake thread could not be '
                            'unblocked')
@@ -900,9 +974,7 @@ def _hostile_conn(m, role, via, key, devs, seed, prev_digest):
             # every scripted message is out and it still waits: cut the line
             runner.was_blocked = True
             peer.close()
-            runner.join(5)
-            if runner.is_alive():
-                _cut([runner], base)
+            _cut([runner], base)
         res = runner.out
         if res is not None and res[0] == 'ok' and res[1] is not None:
             closers.append(res[1].close)
@@ -928,11 +1000,13 @@ def _hostile_conn(m, role, via, key, devs, seed, prev_digest):
                 note('C18/deviation-wrong-error', story)
         info['story'] = story
     finally:
+        stuck = False
         if runner is not None:
             if runner.is_alive():
-                for fd in _new_sockets(base):
-                    _shutdown_fd(fd)
-                runner.join(10)
+                try:
+                    _cut([runner], base)
+                except RuntimeError:
+                    stuck = True
             runner.out = None
             runner.dispose()
         for c in reversed(closers):
@@ -942,7 +1016,7 @@ def _hostile_conn(m, role, via, key, devs, seed, prev_digest):
                 pass
         if tmp:
             shutil.rmtree(tmp, ignore_errors=True)
-        if runner is not None and runner.is_alive():
+        if stuck:
             raise RuntimeError('C18 harness: honest thread could not be '
                                'unblocked')
     return (viol[0] if viol else None), info
@@ -1120,11 +1194,11 @@ def execute_types(case):
                 if blocked:
                     if acc is not None:
                         acc.close()    # EOF for a client that waits for a challenge
-                    runner.join(5)
-                    if runner.is_alive():
-                        _cut([runner], base)
+                    _cut([runner], base)
                 res = runner.out
-                if blocked:
+                if blocked == 'slow':
+                    out = inconclusive(what + ' neither raised nor settled')
+                elif blocked:
                     out = bad('C18/nonbytes-key-used', what + ' started a '
                               'handshake instead of raising')
                 elif res[0] == 'ok':
